@@ -231,6 +231,8 @@ def x_sync(ctx, case):
 
     def behave(self, deferred):
         if kind == "ok":
+            if deferred and case.get("shape") == "list_callback":
+                return defer.DeferredList([defer.succeed(7)])
             return defer.succeed(7) if deferred else 7
         if kind == "multi":
             import sys
@@ -245,6 +247,20 @@ def x_sync(ctx, case):
         else:
             exc = {"fail": AssertionError("F"), "error": ValueError("E"), "skip": unittest.SkipTest("S")}[kind]
         if deferred:
+            shape = case.get("shape", "plain")
+            if shape == "subclass":
+                class MyDeferred(defer.Deferred):
+                    """An already-fired Deferred of a subclass (DeferredList, a project's own class...)."""
+                d = MyDeferred()
+                d.errback(exc)
+                return d
+            if shape == "list_callback":
+                # what gatherResults / DeferredList return, failed by a callback added to it
+                dl = defer.DeferredList([defer.succeed(1)])
+
+                def boom(_):
+                    raise exc
+                return dl.addCallback(boom)
             return defer.fail(exc)
         raise exc
 
@@ -339,8 +355,10 @@ def run(ctx):
             if ctx.mine():
                 n += 1
                 for rep in range(15 if ctx.quick else 60):
-                    ctx.execute("sync", {"stage": stage, "kind": kind, "rep": rep})
-    ctx.note_space("SynchronousDeferredRunTest twins: 4 stages x 5 behaviours", n)
+                    ctx.execute("sync", {"stage": stage, "kind": kind, "rep": rep,
+                                         "shape": ["plain", "subclass", "list_callback"][rep % 3]})
+    ctx.note_space("SynchronousDeferredRunTest twins: 4 stages x 5 behaviours x {Deferred, a Deferred subclass, a "
+                   "DeferredList failed by its own callback}", n)
     ctx.notes["random_cases"] = True
     for i in range(ctx.scale(2000, 200000)):
         if ctx.out_of_time():
